@@ -81,6 +81,10 @@ func genC15(g *Gen) {
 		cs2 := c15Snapshot(c2, true, []string{"NewFrom({a:{b:{v:1}}})", "SetChild(z,-1,Child(a.b))"})
 		cs2.Tags = append(cs2.Tags, "witness:F12b")
 		g.Add(cs2)
+		c3, _ := ucfg.NewFrom(map[string]interface{}{"a.0": "x", "a.5000": "y", "b": map[string]interface{}{"0": 1, "n": 2}}, sep)
+		cs3 := c15Snapshot(c3, false, []string{"NewFrom({a.0:x, a.5000:y, b:{0:1, n:2}})"})
+		cs3.Tags = append(cs3.Tags, "witness:F54")
+		g.Add(cs3)
 	}
 	names := []string{"a", "b", "l", "a.b", "a.l", "l.0", "l.1", "a.b.c", "b.0.x", "", "c"}
 	for i := 0; i < g.N; i++ {
@@ -99,6 +103,16 @@ func genC15(g *Gen) {
 				}
 			}
 			init["l"] = l
+		}
+		if r.P(1, 5) {
+			// a node that holds named settings and a list part at once
+			k := []string{"a", "b", "m"}[r.Intn(3)]
+			init[k+".0"] = randScalar(r)
+			init[k+".name"] = randScalar(r)
+			if r.Bool() {
+				init[k+".1.deep"] = randScalar(r)
+			}
+			delete(init, k)
 		}
 		root, err := ucfg.NewFrom(init, sep)
 		if err != nil {
